@@ -14,7 +14,7 @@ import PercevalModel.SimProto
     (the stateless `answer` of the model).
   * `{"op":"evolve","tree":T,"modes":…,"fixed":b[,"cond":C]}` → as `probs`, plus `sv`: the state vector
     `evolve` returns (`polSV`): `[[ [h,v] per mode ], perm, ∏s!∏t!]` per entry; with `cond` (heralds /
-    post-selection set on the layer) also `sel`: `{"R": retained mass, "sv": entries}` (`selectSV`).
+    post-selection set on the layer, heralded modes kept) also `sel`: `{"R": retained mass, "sv": entries}` (`selectSV`).
   * `{"op":"convert","modes":…,"symbolic":b,"inverse":b}` → `{"input":…,"prep":rows}` of
     `convert_polarized_state(state, use_symbolic, inverse)` or `{"err":…}`.
   * `{"op":"select","tree":T,"modes":…,"fixed":b,"filterFixed":b,"sel":{"heralds":[[mode,val],…],
